@@ -282,13 +282,27 @@ def r4_subgraphs(cx):
     seen = U(seen_add[0].func.value)
     cx.require(not guard_texts(seen_add[0], stop=inner), seen_add[0], "every popped component is added to the sub-graph, unconditionally")
     augs = [a for a in walk_body(inner.body) if isinstance(a, ast.AugAssign) and U(a.target) == frontier]
+    # frontier.update(X) is frontier |= set(X)
+    for st_ in [x for x in walk_body(inner.body) if isinstance(x, ast.Expr) and isinstance(x.value, ast.Call) and call_attr(x.value) == "update" and U(x.value.func.value) == frontier and len(x.value.args) == 1]:
+        pseudo = ast.AugAssign(target=st_.value.func.value, op=ast.BitOr(), value=st_.value.args[0])
+        ast.copy_location(pseudo, st_)
+        pseudo._parent = getattr(st_, "_parent", None)
+        for fld in ("_mod",):
+            if hasattr(st_, fld):
+                setattr(pseudo, fld, getattr(st_, fld))
+        pseudo._as_update = st_
+        augs.append(pseudo)
+    augs.sort(key=lambda a: (a.lineno, a.col_offset))
+
+    def _g(a):
+        return guard_texts(getattr(a, "_as_update", a), stop=inner)
     for role in ("get_dependencies", "get_dependents"):
         hit = [a for a in augs if isinstance(a.op, ast.BitOr) and ("%s(%s)" % (role, comp)) in U(a.value)]
-        ok = bool(hit) and ("in %s" % graph) in U(hit[0].value) and not guard_texts(hit[0], stop=inner)
+        ok = bool(hit) and ("in %s" % graph) in U(hit[0].value) and not _g(hit[0])
         cx.require(ok, hit[0] if hit else inner, "the frontier is extended with every %s of the component that belongs to the graph" % role.replace("get_", ""),
                    construct=short(hit[0]) if hit else "(no frontier |= ... %s(%s))" % (role, comp))
     sub = [a for a in augs if isinstance(a.op, ast.Sub) and U(a.value) == seen]
-    cx.require(bool(sub) and all(syn_dominates(a, sub[0]) for a in augs if a is not sub[0]), sub[0] if sub else inner,
+    cx.require(bool(sub) and all(syn_dominates(getattr(a, "_as_update", a), sub[0]) for a in augs if a is not sub[0]), sub[0] if sub else inner,
                "already seen components are removed from the frontier after it was extended (termination, no duplication)",
                construct=short(sub[0]) if sub else "(no frontier -= seen)")
     ys = [y for y in walk_body(outer.body) if isinstance(y, ast.Yield)]
